@@ -39,6 +39,18 @@ def extract(read, fail, lean_str, lean_list):
     fr = re.search(r"pub fn from_routes_rule\(mut routes: Vec<Arc<Route<Rule>>>.*?\n    \}\n", action, re.S)
     if not fr or not re.search(r"let mut action = Action::default\(\);\s*routes\.sort\(\);\s*for route in routes \{", fr.group(0)):
         fail("action/mod.rs: `from_routes_rule` no longer starts with `routes.sort()` before the loop")
+    # C17 clause 3 (Model/ActionTrace.lean): the action trace sorts by priority = 0 - rank only, then runs the same loop
+    if "0 - self.rank as i64," not in rule:
+        fail("api/rule.rs: `IntoRoute for Rule` no longer sets priority to `0 - self.rank as i64`")
+    tr = _norm(read("src/action/trace.rs"))
+    want = ("let mut routes = Trace::<Rule>::get_routes_from_traces(traces); // Reverse order of sort "
+            "routes.sort_by_key(|a| a.priority()); for route in routes { "
+            "let (action_rule_opt, reset, stop, _) = Action::from_route_rule(route.clone(), request); "
+            "if let Some(action_rule) = action_rule_opt { if reset { current_action = action_rule; } else { current_action.merge(action_rule); } } "
+            "traces_action.push(TraceAction { action: current_action.clone(), rule: route.handler().clone(), }); "
+            "if stop { return traces_action; } }")
+    if want not in tr:
+        fail("action/trace.rs: `TraceAction::from_trace_rules` no longer has the modelled shape (sort_by_key(priority), step per rule, stop)")
     return [
         "-- `impl Ord for Rule` (src/api/rule.rs): `other.k.cmp(&self.k)` = descending",
         f"def ruleCmpRankDescending : Bool := {'true' if a == 'other' else 'false'}",
